@@ -57,6 +57,39 @@ theorem tie_v2_proofCheck_shape :
       "if fc.Filesize > 0 && len(sp.Proof) < storageProofSubtreeHeight(leafIndex, fc.Filesize) => return error",
       "if storageProofRoot(ms.base.StorageProofLeafHash(sp.Leaf[:]), leafIndex, fc.Filesize, sp.Proof) != fc.FileMerkleRoot => return error"] := rfl
 
+/-- consensus/state.go `State.StorageProofLeafIndex` ↦ `Sia.SP.storageProofLeafIndex` (`numLeaves`, the
+early return for an empty file, `hashAll(windowID, fcid)` = BLAKE2b-256 of the two ids, the
+word-by-word `bits.Div64` reduction `Sia.SP.leafIndexLoop`). `C07.c07_leaf_index_total` proves that
+this shape never divides by zero; a rewrite of the rounding (e.g. `(filesize+leafSize-1)/leafSize`,
+which wraps for `filesize ≥ 2^64-62`) breaks this tie. -/
+theorem tie_leafIndex_shape :
+    Gen.FactsSp.leafIndexSig = "func(filesize uint64, windowID types.BlockID, fcid types.FileContractID) uint64" ∧
+    Gen.FactsSp.leafIndexBody = [
+      "const leafSize = uint64(len(types.StorageProof{}.Leaf))",
+      "numLeaves := filesize / leafSize",
+      "if filesize%leafSize != 0 { numLeaves++ }",
+      "if numLeaves == 0 { return 0 }",
+      "seed := hashAll(windowID, fcid)",
+      "var r uint64",
+      "for i := 0; i < len(seed); i += 8 { _, r = bits.Div64(r, binary.BigEndian.Uint64(seed[i:]), numLeaves) }",
+      "return r"] := ⟨rfl, rfl⟩
+
+/-- consensus/state.go `State.StorageProofLeafHash` ↦ `leaf (padLeaf ·)` (zero-extend to 64 bytes, leaf hash) -/
+theorem tie_leafHash_shape :
+    Gen.FactsSp.leafHashBody = [
+      "if len(leaf) == 64 { return blake2b.SumLeaf((*[64]byte)(leaf)) }",
+      "var buf [64]byte",
+      "copy(buf[:], leaf)",
+      "return blake2b.SumLeaf(&buf)"] := rfl
+
+/-- `numLeaves++` cannot wrap and the model's `numLeaves` is the literal reading of the first three
+statements with `leafSize = 64` -/
+theorem tie_numLeaves_meaning (filesize : Nat) (h : filesize < 18446744073709551616) :
+    numLeaves filesize = (if filesize % 64 ≠ 0 then (filesize / 64 + 1) % 18446744073709551616 else filesize / 64) := by
+  unfold numLeaves
+  have hlt : filesize / 64 + 1 < 18446744073709551616 := by omega
+  rw [Nat.mod_eq_of_lt hlt]
+
 /-- v1 closure `lastLeafIndex` ↦ `Sia.SP.lastLeafIndex` (same value as the v2 computation) -/
 theorem tie_v1_lastLeafIndex_shape :
     Gen.FactsSp.v1LastLeafIndexSig = "func(filesize uint64) uint64" ∧
